@@ -314,13 +314,13 @@ class Gen:
                 prevs, th = [q], s
             elif k < 0.73:
                 rule, arg, th = "theorem", ["at", "T1"], _sq([], ["imp", ["sv", "A"], ["sv", "A"]])
-            elif k < 0.80:
+            elif k < 0.78:
                 rule = "sorry"
                 th = _sq([A_] if r.random() < 0.3 else [], self.prop(1))
-            elif k < 0.84:
+            elif k < 0.81:
                 rule, arg = "verif_gap1", self.prop(1)
                 th = _sq([], arg)
-            elif k < 0.88:
+            elif k < 0.84:
                 rule = ""
             elif depth < 3:
                 rule = "subproof"
